@@ -93,6 +93,23 @@ theorem ops_bit_net_exact (p : Prog) (c : Cfg) (α : QId → List Rat)
     Option.getD_some]
   exact this
 
+/-- **Per-layer search on a shape-consistent program**: nothing is pruned, so the calculators hand
+every layer its static `in_channels / in_features`: `#weights` above is the `numel` of the layer's
+weight tensor, and `params_bit = Σ_layers numel × selected weight bits`. -/
+theorem params_bit_net_exact_static (p : Prog) (c : Cfg) (α : QId → List Rat) (hwf : WF p) (ht : Typed p)
+    (hl : ∀ i ∈ layerIdxs p, i < p.length ∧ LayerOK (p.nd i))
+    (hn : ∀ q, (α q).length = (precOf p c q).length ∧ α q ≠ []) :
+    netCost paramsBit p c (hardSampled α)
+      = ratSum ((layerIdxs p).map fun i =>
+          numWeights (p.nd i) (p.nd i).cin * ((planOf p c α (.layer i)).wS.getD default).bits) := by
+  rw [params_bit_net_exact p c α (fun i hi => (hl i hi).2) hn]
+  congr 1
+  apply List.map_congr_left
+  intro i hi
+  have hoe : outEffOf p c (hardSampled α) = fun j => ((p.nd j).cout : Rat) := by
+    funext j; simp [outEffOf, hardSampled, outEff]
+  rw [hoe, effIn_static p hwf ht i (hl i hi).1 (hl i hi).2.1]
+
 /-! ### per-channel search -/
 
 /-- **Per-channel search, general form.**  Input coefficients one-hot, weight coefficients the
@@ -108,6 +125,24 @@ theorem per_channel_cost_general (f : Spec → Rat) (base : Spec) (pin pw : List
   rw [layerCost_onehot_in f base pin pw _ ki hki]
   simp only [hf]
   exact perChannel_sum αM pw hlen hα hC A g
+
+/-- **The identity behind the repair**: `Σ_j θ̄_j · f(C, p_j) = Σ_j n_j · f(1, p_j)` for a cost
+`f(C, p) = C · g(p)` linear in the channel count, `θ̄_j` the share and `n_j` the number of channels
+that selected precision `p_j`. -/
+theorem per_channel_shares_identity (αM : List (List Rat)) (pw : List Int) (hlen : pw.length = αM.length)
+    (hα : αM ≠ []) (hC : 0 < nCols αM) (g : Int → Rat) :
+    ratSum ((List.zip (rowMean (sampleHardM αM)) pw).map fun tp => tp.1 * ((nCols αM : Rat) * g tp.2))
+      = ratSum ((List.range pw.length).map fun r =>
+          (((selCols αM).filter (· = r)).length : Rat) * g (pw.getD r 0)) := by
+  have hC' : ((nCols αM : ℕ) : Rat) ≠ 0 := by exact_mod_cast (Nat.pos_iff_ne_zero.mp hC)
+  rw [perChannel_sum αM pw hlen hα hC (nCols αM : Rat) g, div_self hC', one_mul]
+  simp only [← ratSum_indicator_count]
+  rw [hlen]
+  exact (ratSum_counts (fun r => g (pw.getD r 0)) αM.length (selCols αM)
+    (by intro s hs
+        simp only [selCols, List.mem_map, List.mem_range] at hs
+        obtain ⟨c, _, rfl⟩ := hs
+        exact argmax_column_lt αM hα c)).symm
 
 /-- **Per-channel `params_bit` is exact after 5b23653** (with or without the 0-bit option): the
 layer's own spec carries the static width `cout = C`, so the charge is
@@ -344,6 +379,9 @@ def convFlatLin : Prog :=
    { kind := .linear, a := 3, lt := .linear, cin := 64, cout := 5 }]
 
 example : WF convFlatLin := wf_of_wfB convFlatLin (by decide)
+
+example : Typed convFlatLin := by
+  unfold Typed; decide
 
 example : Reaches convFlatLin (convFlatLin.nd 4).a 1 (16 * 1) :=
   Reaches.flat 3 1 1 (by rfl) (Reaches.pass 2 1 1 (Or.inl (by rfl)) (Reaches.here 1 (Or.inl (by rfl))))
